@@ -45,24 +45,63 @@ type decPayload struct {
 
 // ---------- safe wrappers ----------
 
+// "never panics" includes "returns": both wrappers run the call on a goroutine
+// of its own and report a call that has not returned after hangLimit (values
+// and texts are small: a call takes microseconds, milliseconds under load) the
+// way they report a panic. The goroutine of a call that really spins is lost;
+// the process ends with the failure.
+const hangLimit = 90 * time.Second
+
+type hung string
+
 func safeEncode(v tengo.Object) (b []byte, err error, pan interface{}) {
-	defer func() {
-		if r := recover(); r != nil {
-			pan = r
-		}
+	type res struct {
+		b   []byte
+		err error
+		pan interface{}
+	}
+	ch := make(chan res, 1)
+	go func() {
+		var r res
+		defer func() {
+			if x := recover(); x != nil {
+				r.pan = x
+			}
+			ch <- r
+		}()
+		r.b, r.err = tjson.Encode(v)
 	}()
-	b, err = tjson.Encode(v)
-	return
+	select {
+	case r := <-ch:
+		return r.b, r.err, r.pan
+	case <-time.After(hangLimit):
+		return nil, nil, hung(fmt.Sprintf("json.Encode did not return within %v", hangLimit))
+	}
 }
 
 func safeDecode(b []byte) (o tengo.Object, err error, pan interface{}) {
-	defer func() {
-		if r := recover(); r != nil {
-			pan = r
-		}
+	type res struct {
+		o   tengo.Object
+		err error
+		pan interface{}
+	}
+	ch := make(chan res, 1)
+	go func() {
+		var r res
+		defer func() {
+			if x := recover(); x != nil {
+				r.pan = x
+			}
+			ch <- r
+		}()
+		r.o, r.err = tjson.Decode(b)
 	}()
-	o, err = tjson.Decode(b)
-	return
+	select {
+	case r := <-ch:
+		return r.o, r.err, r.pan
+	case <-time.After(hangLimit):
+		return nil, nil, hung(fmt.Sprintf("json.Decode did not return within %v", hangLimit))
+	}
 }
 
 func goDecode(b []byte) (interface{}, error) {
@@ -360,8 +399,16 @@ func runScript(src string, inputs map[string]tengo.Object) (map[string]tengo.Obj
 	}
 	ctx, cancel := context.WithTimeout(context.Background(), 20*time.Second)
 	defer cancel()
-	if err := c.RunContext(ctx); err != nil {
-		return nil, err
+	done := make(chan error, 1)
+	go func() { done <- c.RunContext(ctx) }()
+	select {
+	case err := <-done:
+		if err != nil {
+			return nil, err
+		}
+	case <-time.After(20*time.Second + hangLimit):
+		// a builtin that never returns: the VM cannot be aborted inside it
+		return nil, fmt.Errorf("RunContext did not return %v after its context expired", hangLimit)
 	}
 	out := map[string]tengo.Object{}
 	for _, v := range c.GetAll() {
